@@ -1,14 +1,103 @@
-//! Operations for C12 (see ops.rs). Fill in: return Some(outcome) for the ops this module owns.
+//! Operations for C12 (and the parse half of C11): `Parse.<Type>` = the type's public string parser applied to a
+//! string that travels as an array of one-character strings (TLC cannot index strings).
+//! Characters outside printable ASCII travel as tokens "U+XXXX" so that neither TLC's JSON reader nor its
+//! console encoding is ever involved in what the string is.
 use crate::js::{self, big, int};
 use crate::ops::{utc, FS};
 use crate::proj::*;
 use serde_json::{json, Value};
+use std::str::FromStr;
 use temporal_rs::options::*;
 use temporal_rs::*;
 
-pub fn exec(op: &str, a: &Value) -> Option<Value> {
-    let _ = a;
-    match op {
-        _ => None,
+/// string -> array of 1-char strings / "U+XXXX" tokens
+pub fn chars_tok(s: &str) -> Value {
+    Value::Array(s.chars().map(|c| {
+        if (' '..='~').contains(&c) { json!(c.to_string()) } else { json!(format!("U+{:04X}", c as u32)) }
+    }).collect())
+}
+/// inverse of `chars_tok`
+pub fn untok(v: &Value) -> String {
+    let mut s = String::new();
+    for e in v.as_array().expect("chars array") {
+        let t = e.as_str().expect("char");
+        if t.len() > 2 && t.starts_with("U+") {
+            s.push(char::from_u32(u32::from_str_radix(&t[2..], 16).expect("hex")).expect("scalar"));
+        } else {
+            s.push_str(t);
+        }
     }
+    s
+}
+
+// ---------- projections used by C11/C12 (ISO fields through public getters, calendar by identifier) ----------
+pub fn p_date_iso(d: &PlainDate) -> Value {
+    json!({"y": int(d.iso_year() as i64), "m": d.iso_month(), "d": d.iso_day(), "cal": d.calendar().identifier()})
+}
+pub fn p_datetime_iso(t: &PlainDateTime) -> Value {
+    json!({"y": int(t.iso_year() as i64), "m": t.iso_month(), "d": t.iso_day(),
+           "h": t.hour(), "mi": t.minute(), "s": t.second(), "ms": t.millisecond(), "us": t.microsecond(), "ns": t.nanosecond(),
+           "cal": t.calendar().identifier()})
+}
+pub fn p_ym(t: &PlainYearMonth) -> Value {
+    json!({"y": int(t.iso_year() as i64), "m": t.iso_month(), "cal": t.calendar_id()})
+}
+pub fn p_md(t: &PlainMonthDay) -> Value {
+    json!({"m": t.iso_month(), "d": t.iso_day(), "cal": t.calendar_id()})
+}
+pub fn p_tz(t: &TimeZone) -> Value {
+    match t.identifier() { Ok(s) => chars_tok(&s), Err(_) => json!("identifier-error") }
+}
+pub fn p_zdt(z: &ZonedDateTime) -> Value {
+    json!({"ns": big(z.epoch_nanoseconds().as_i128()), "tz": p_tz(z.timezone()), "cal": z.calendar().identifier()})
+}
+/// "+HH:MM" -> signed minutes (UtcOffset has no numeric getter; its canonical text is its public projection)
+pub fn offset_minutes_of(s: &str) -> Value {
+    let b = s.as_bytes();
+    if b.len() == 6 && (b[0] == b'+' || b[0] == b'-') && b[3] == b':' {
+        let d = |i: usize| (b[i] as i64) - 48;
+        let m = (d(1) * 10 + d(2)) * 60 + d(4) * 10 + d(5);
+        return json!({"min": if b[0] == b'-' { -m } else { m }, "str": chars_tok(s)});
+    }
+    json!({"str": chars_tok(s)})
+}
+pub fn p_offset(o: &UtcOffset) -> Value {
+    match o.to_string() { Ok(s) => offset_minutes_of(&s), Err(_) => json!("to_string-error") }
+}
+pub fn p_timezone(t: &TimeZone) -> Value {
+    match t {
+        TimeZone::UtcOffset(o) => { let mut v = p_offset(o); v["k"] = json!("offset"); v }
+        TimeZone::IanaIdentifier(s) => json!({"k": "name", "str": chars_tok(s)}),
+    }
+}
+pub fn p_monthcode(m: &MonthCode) -> Value {
+    json!({"str": chars_tok(m.as_str()), "n": m.to_month_integer(), "leap": m.is_leap_month()})
+}
+
+fn arg_dis(a: &Value) -> Disambiguation {
+    Disambiguation::from_str(js::opt_s(a, "dis").unwrap_or("compatible")).expect("disambiguation")
+}
+fn arg_offopt(a: &Value) -> OffsetDisambiguation {
+    OffsetDisambiguation::from_str(js::opt_s(a, "offopt").unwrap_or("reject")).expect("offset option")
+}
+
+pub fn exec(op: &str, a: &Value) -> Option<Value> {
+    if !op.starts_with("Parse.") { return None; }
+    let s = untok(&a["chars"]);
+    Some(match op {
+        "Parse.PlainDate" => run(|| PlainDate::from_str(&s), p_date_iso),
+        "Parse.PlainDateTime" => run(|| PlainDateTime::from_str(&s), p_datetime_iso),
+        "Parse.PlainTime" => run(|| PlainTime::from_str(&s), p_time),
+        "Parse.PlainYearMonth" => run(|| PlainYearMonth::from_str(&s), p_ym),
+        "Parse.PlainMonthDay" => run(|| PlainMonthDay::from_str(&s), p_md),
+        "Parse.Instant" => run(|| Instant::from_str(&s), p_instant),
+        "Parse.Duration" => run(|| Duration::from_str(&s), p_duration),
+        "Parse.ZonedDateTime" => run(|| FS.with(|p| ZonedDateTime::from_str_with_provider(&s, arg_dis(a), arg_offopt(a), p)), p_zdt),
+        "Parse.UtcOffset" => run(|| UtcOffset::from_str(&s), p_offset),
+        "Parse.TimeZone" => run(|| TimeZone::try_from_str(&s), p_timezone),
+        "Parse.TimeZoneId" => run(|| TimeZone::try_from_identifier_str(&s), p_timezone),
+        "Parse.MonthCode" => run(|| MonthCode::from_str(&s), p_monthcode),
+        "Parse.Calendar" => run(|| Calendar::from_str(&s), |c| chars_tok(c.identifier())),
+        _ => return None,
+    })
 }
